@@ -9,7 +9,7 @@ import numpy as np
 
 from props import _ta
 
-KINDS = [('pass', 'unset'), ('pass', True), ('pass', False), ('pass', 0), ('pass', 45), ('transport',), ('rotator', 90), ('other',)]
+KINDS = [('pass', 'unset'), ('pass', True), ('pass', False), ('pass', 0), ('pass', 45), ('transport',), ('rotator', 90), ('rotator', 0), ('other',)]
 
 
 def cunit(u):
